@@ -163,6 +163,7 @@ std::string describe_tasks() {
 }
 
 bool active() { return G.running && me != nullptr; }
+const char *current_api() { Task *t = G.cur; return (t && t->cur_api) ? t->cur_api : "(no api call)"; }
 Task *self() { return me; }
 int self_id() { return me ? me->id : -1; }
 uint64_t now_us() { return G.now; }
